@@ -201,6 +201,7 @@ type lcScenario struct {
 	ErrResult  bool   `json:"exec_error_result"` // func kind, result-style exec: success returns NewErrorResult(e), nil
 	InFlow     bool   `json:"in_flow"`
 	NilPtr     bool   `json:"typed_nil_pointer_payload"` // prep and exec return a typed nil pointer
+	ErrPayload bool   `json:"error_typed_payload"`       // the prep value is itself a value of an error type (with a nil error return)
 }
 
 type lcEvent struct {
@@ -348,6 +349,9 @@ func lifecycleScenarios() []lcScenario {
 									sc3 := sc
 									sc3.NilPtr = true
 									out = append(out, sc3)
+									sc4 := sc
+									sc4.ErrPayload = true
+									out = append(out, sc4)
 								}
 							}
 						}
@@ -393,6 +397,9 @@ func runLifecycle(sc lcScenario, prop string) string {
 		var pv any = &struct{ tag string }{"prep-value"}
 		if sc.NilPtr {
 			pv = (*vrUser)(nil)
+		}
+		if sc.ErrPayload {
+			pv = errors.New("a recorded error used as a payload")
 		}
 		r := &lcRec{sc: sc, pv: pv, fbVal: "fallback-value",
 			prepErr: errors.New("prep-error"), fbErr: errors.New("fallback-error"), postErr: errors.New("post-error"), errRes: errors.New("error-result")}
@@ -965,6 +972,7 @@ type btScenario struct {
 	PostAction  string `json:"post_action"`
 	ErrResult   int    `json:"error_result_item"` // item whose exec returns an error Result with nil error (-1 none)
 	FbFails     bool   `json:"fallback_fails"`
+	CancelPrep  bool   `json:"cancel_inside_prep"`
 	WaitMs      int    `json:"wait_ms"`
 	SlowMs      int    `json:"slow_failing_attempt_ms"`
 	Gate        string `json:"gate"` // "" | max-first | min-first: every exec attempt parks until a controller releases it; the controller releases the in-flight attempt with the highest / lowest item index once no new attempt arrives
@@ -1009,6 +1017,11 @@ func batchScenarios() []btScenario {
 					btScenario{Items: 2, Concurrency: c, Stop: stop, Retries: 3, Fail: []int{1, 9}, Payload: "results", CancelIn: -1, ErrResult: -1, Gate: gate},
 					btScenario{Items: 3, Concurrency: c, Stop: stop, Retries: 2, Fail: []int{1, 9, 1}, Fallback: true, Payload: "results", CancelIn: -1, ErrResult: -1, Gate: gate})
 			}
+		}
+	}
+	for _, c := range []int{0, 2} {
+		for _, stop := range []bool{false, true} {
+			out = append(out, btScenario{Items: 3, Concurrency: c, Stop: stop, Retries: 1, Fail: []int{0, 0, 0}, Payload: "results", CancelIn: -1, ErrResult: -1, CancelPrep: true})
 		}
 	}
 	out = append(out, btScenario{Items: 0, Payload: "nil", CancelIn: -1, ErrResult: -1, Retries: 1}, btScenario{Items: 1, Payload: "single", CancelIn: -1, ErrResult: -1, Retries: 1, Fail: []int{0}},
@@ -1071,6 +1084,9 @@ func runBatchScenario(sc btScenario, prop string) string {
 		switch sc.Payload {
 		case "results", "nil":
 			b.WithPrepFunc(func(c context.Context, s *SharedStore) ([]Result, error) {
+				if sc.CancelPrep {
+					cancel()
+				}
 				if sc.Payload == "nil" {
 					return nil, nil
 				}
@@ -1150,7 +1166,10 @@ func runBatchScenario(sc btScenario, prop string) string {
 		})
 		act, err := Run(ctx, b, NewSharedStore())
 		close(finished)
-		cancelled := sc.CancelIn >= 0
+		cancelled := sc.CancelIn >= 0 || sc.CancelPrep
+		if wants(prop, "C06") && sc.CancelPrep && posts != 1 {
+			return fmt.Sprintf("C06: prep succeeded (the context was cancelled while it ran) but post was called %d times; Run returned (%q, %v)", posts, act, err)
+		}
 		if wants(prop, "C18") && err == nil && act == "" {
 			return "C18: successful batch run returned the empty action"
 		}
